@@ -1,11 +1,11 @@
 import OZ.DrvUtil
-import OZ.Model.Fungible
+import OZ.Model.FungibleMon
 /-
 Parsing of `fungible ...` op lines, printing of model observations, and parsing of
 observation lines for the monitors (shared by the C01 and C02 drivers).
 -/
 namespace OZ.Drv.FungibleIO
-open OZ.Drv OZ.Fungible OZ.Host
+open OZ.Drv OZ.Fungible OZ.Host OZ.FungibleMon
 
 def N : Nat := 5
 def MAX_TTL : Nat := 200000
@@ -53,50 +53,44 @@ def showEvent : Event → String
   | .transfer f t a => s!"transfer:{f}:{t}:{a}"
   | .approve o s a lu => s!"approve:{o}:{s}:{a}:{lu}"
 
-def showStateN (n : Nat) (s : State) : String :=
-  let bals := (List.range n).map (fun i => toString (s.bal i))
-  let al := (List.range n).flatMap (fun o => (List.range n).filterMap (fun sp =>
-    let a := allowance s o sp
-    if a = 0 then none else some s!"{o}:{sp}:{a}"))
-  s!"sup={s.supply} bal={",".intercalate bals} allow={if al.isEmpty then "-" else ";".intercalate al}"
+/-- the `sup= bal= allow=` part of an observation line -/
+def showSBA (sup : Int) (bal : List Int) (allow : List (Nat × Nat × Int)) : String :=
+  let bals := bal.map (fun b => toString b)
+  let al := allow.map (fun x => s!"{x.1}:{x.2.1}:{x.2.2}")
+  s!"sup={sup} bal={",".intercalate bals} allow={if al.isEmpty then "-" else ";".intercalate al}"
+
+def showStateN (n : Nat) (s : State) : String := showSBA s.supply (balList n s) (allowList n s)
 
 def showState (s : State) : String := showStateN N s
 
-/-- one op line through the model: new state and the observation line -/
+/-- an observation as a line of the trace -/
+def showObs (o : Obs) : String :=
+  s!"{if o.ok then "ok" else "err"} {showSBA o.sup o.bal o.allow} now={o.now} ev={if o.evs.isEmpty then "-" else ";".intercalate (o.evs.map showEvent)} dem={showList toString o.dem}"
+
+/-- one op line through the model: new state and the observation line. The model's structured
+observation is `OZ.FungibleMon.stepObs` (the object of the monitor-soundness theorems
+OZ/Props/C01Mon.lean, OZ/Props/C02Mon.lean); this function only parses the op and prints it. -/
 def stepLine (m : M) (line : String) : M × String :=
   match parseOp (words line) with
   | none => (m, "bad-op")
   | some (auth, op) =>
     -- `mauth=<i>` on a mint: the contract wraps `Base::mint` in an owner-only guard
-    -- (wiring of the example contracts, not of the library)
-    let mauth : Option Nat := match op with
-      | .mint _ _ => kvNat? (words line) "mauth"
-      | _ => none
-    let guarded : Except Err State := match mauth with
-      | some g => if g ∈ auth then apply m.cfg m.s auth op else .error .auth
-      | none => apply m.cfg m.s auth op
-    match guarded with
-    | .ok s' =>
-      let evs := s'.events.drop m.s.events.length
-      let dem := match op with
-        | .advance _ => "-"
-        | _ => showList toString ((op.required ++ mauth.toList).mergeSort (· ≤ ·))
-      ({ m with s := s' },
-        s!"ok {showStateN m.n s'} now={s'.now} ev={if evs.isEmpty then "-" else ";".intercalate (evs.map showEvent)} dem={dem}")
-    | .error _ => (m, s!"err {showStateN m.n m.s} now={m.s.now} ev=- dem=-")
+    -- (wiring of the example contracts, not of the library); `stepObs` ignores it on other ops
+    let r := stepObs m.cfg m.n m.s auth op (kvNat? (words line) "mauth")
+    ({ m with s := r.1 }, showObs r.2)
 
-/-! ### parsing of observations (implementation side) for the monitors -/
+/-! ### parsing of op and observation lines (implementation side) for the monitors -/
 
-structure Obs where
-  ok : Bool
-  sup : Int
-  bal : List Int
-  allow : List (Nat × Nat × Int)
-  now : Nat
-  evs : List (List String)
-  dem : List Nat
-  deriving Repr
+def parseEvent (ws : List String) : Option Event :=
+  match ws with
+  | ["mint", t, a] => do pure (.mint (← t.toNat?) (← a.toInt?))
+  | ["burn", f, a] => do pure (.burn (← f.toNat?) (← a.toInt?))
+  | ["transfer", f, t, a] => do pure (.transfer (← f.toNat?) (← t.toNat?) (← a.toInt?))
+  | ["approve", o, s, a, lu] => do pure (.approve (← o.toNat?) (← s.toNat?) (← a.toInt?) (← lu.toNat?))
+  | _ => none
 
+/-- events that do not parse are dropped: neither monitor looks at anything but well-formed
+mint / burn / transfer events (the correspondence diff compares the raw text) -/
 def parseObs (line : String) : Option Obs :=
   match words line with
   | tag :: rest => do
@@ -109,14 +103,29 @@ def parseObs (line : String) : Option Obs :=
       | _ => none)
     let now ← kvNat? rest "now"
     let evS := (kv? rest "ev").getD "-"
-    let evs := if evS = "-" then [] else (evS.splitOn ";").map (·.splitOn ":")
+    let evs := if evS = "-" then [] else (evS.splitOn ";").filterMap (fun t => parseEvent (t.splitOn ":"))
     let dem := natList ((kv? rest "dem").getD "-")
     pure { ok := tag = "ok", sup, bal, allow, now, evs, dem }
   | _ => none
 
-def Obs.allowOf (o : Obs) (ow sp : Nat) : Int :=
-  match o.allow.find? (fun (a, b, _) => a = ow ∧ b = sp) with
-  | some (_, _, v) => v
-  | none => 0
+def parseKind (s : String) : Kind :=
+  match s with
+  | "mint" => .mint
+  | "transfer" => .transfer
+  | "transfer_from" => .transferFrom
+  | "approve" => .approve
+  | "burn" => .burn
+  | "burn_from" => .burnFrom
+  | "advance" => .advance
+  | s => .other s
+
+/-- the op line as the monitors read it (never fails: absent fields read as empty / 0) -/
+def parseLine (opl : String) : Line :=
+  let ws := words opl
+  { kind := parseKind ((ws.drop 1).head?.getD ""),
+    a := natList ((kv? ws "a").getD "-"),
+    auth := natList ((kv? ws "auth").getD "-"),
+    amt := (kvInt? ws "amt").getD 0,
+    lu := (kvNat? ws "lu").getD 0 }
 
 end OZ.Drv.FungibleIO
